@@ -53,6 +53,28 @@ def evalF (p : Nat → Float) (s : Nat → Float) (r : Float) : E → Float
   | log a => Float.log (evalF p s r a)
   | sqrt a => Float.sqrt (evalF p s r a)
 
+/-- evaluation over exact rationals, for the arithmetic kernels of the writers and grid rules (`Gen/Kernels.lean`): only
+    `+ - * /`, literals, operands and natural powers occur there; any other node evaluates to 0 and is flagged by `isArith`. -/
+def evalQ (p : Nat → Rat) : E → Rat
+  | param i => p i
+  | lit n d => (n : Rat) / (d : Rat)
+  | add a b => evalQ p a + evalQ p b
+  | sub a b => evalQ p a - evalQ p b
+  | mul a b => evalQ p a * evalQ p b
+  | div a b => evalQ p a / evalQ p b
+  | neg a => - evalQ p a
+  | npow a n => evalQ p a ^ n
+  | _ => 0
+
+def isArith : E → Bool
+  | param _ | lit _ _ => true
+  | add a b | sub a b | mul a b | div a b => isArith a && isArith b
+  | neg a | npow a _ => isArith a
+  | _ => false
+
+/-- operand environment from a list -/
+def envQ (l : List Rat) : Nat → Rat := fun i => l.getD i 0
+
 def isBad : E → Bool
   | bad => true
   | add a b | sub a b | mul a b | div a b | rpow a b => isBad a || isBad b
